@@ -11,7 +11,8 @@ namespace Irismod.Props.Tie
 open Irismod Irismod.GoSem Irismod.Gen.PureHtlcId Irismod.Htlc
 
 theorem htlcid_all_translated : Irismod.Gen.PureHtlcId.untranslated = [] := rfl
-theorem htlcid_translated_pinned : Irismod.Gen.PureHtlcId.translated = ["GetHashLock", "GetID"] := rfl
+theorem htlcid_translated_pinned : Irismod.Gen.PureHtlcId.translated = ["GetHashLock(secret,timestamp)",
+     "GetID(sender,to,amount,hashLock,read_amount_Sort__String)"] := rfl
 
 theorem Uint64ToBigEndian_eq_model (n : Nat) : Uint64ToBigEndian n = be64 n := rfl
 
